@@ -92,6 +92,7 @@ class Step(object):
         self.before = before
         self.slept = st.get("slept", 0)
         self.reasons = st.get("reasons", [])      # reason texts of this step's error replies / refused check (side channel)
+        self.opts = st.get("opts")         # digest of every watcher's option values (real Watcher.options()), or None
 
     def kind(self):
         return self.op[0]
@@ -270,7 +271,7 @@ def c10(sc, V):
         if not s.before.blocked and s.before.slot is None and s.kind() in ("req", "check", "start"):
             for reason in s.reasons:
                 if reason.startswith("arbiter is already running") or reason.startswith("arbiter is restarting"):
-                    # F32: a failed `restart` of the arbiter leaves `_restarting` set
+                    # F33: a failed `restart` of the arbiter leaves `_restarting` set
                     f32 = reason.startswith("arbiter is restarting") and s.before.restarting
                     f.append({"sig": "wedged-after-failed-restart" if f32 else "refused-although-no-operation-in-flight",
                               "step": s.n,
@@ -279,7 +280,7 @@ def c10(sc, V):
                     break
         # `Process.stopping` says that a termination of this worker is in flight (a kill_process is polling it).  With no
         # timer pending nothing is in flight: the flag will never be cleared, and the next stop / kill of this worker waits
-        # for it for ever, holding the slot (F33: an AccessDenied from the SIGKILL escalation leaves kill_process between
+        # for it for ever, holding the slot (F34: an AccessDenied from the SIGKILL escalation leaves kill_process between
         # `stopping = True` and `stopping = False`)
         if s.snap.quiescent():
             stuck = [(w["name"], q[0]) for w in s.snap.watchers for q in w["procs"]
@@ -339,7 +340,8 @@ def c05(sc, V):
             od = any(c.get("on_demand") for c in sc["watchers"]) and any(x.kind() == "sockev" and x.op[1] for x in V[:s.n])
             f.append({"sig": "on-demand-start-overlap" if od else "event-loop-stalled", "step": s.n,
                       "msg": "event loop blocked for %d ms in one step" % s.slept})
-        if s.kind() == "req" and s.cmd() in ("status", "list", "numprocesses", "numwatchers", "options", "globaloptions", "stats") \
+        if s.kind() == "req" and s.cmd() in ("status", "list", "numprocesses", "numwatchers", "options", "get", "globaloptions",
+                                             "stats", "dstats", "listsockets") \
                 and not s.before.blocked and not _ctl_closed_before(V, s.n) and s.op[1].get("msg_type") != "cast":
             if len(s.of("rep")) != 1:
                 f.append({"sig": "readonly-not-answered-at-once", "step": s.n, "msg": "%s got %d replies in its own step" % (s.cmd(), len(s.of("rep")))})
@@ -505,11 +507,15 @@ def c11(sc, V):
         same = (b.names == a.names and [(w["name"], w["status"], w["np"], w["procs"]) for w in b.watchers] ==
                 [(w["name"], w["status"], w["np"], w["procs"]) for w in a.watchers] and
                 b.stopping == a.stopping and b.slot == a.slot)
-        if eff or not same:
-            sig = "refused-request-had-effect"
+        # "… watchers, options, statuses, worker pids exactly as they were": the option values of every watcher, read through
+        # the real Watcher.options() after each step (all of them: cmd, env, uid, … too)
+        prev = V[s.n - 1].opts if s.n > 0 else None
+        opts_changed = prev is not None and s.opts is not None and prev != s.opts
+        if eff or not same or opts_changed:
+            sig = "refused-request-had-effect" if (eff or not same) else "refused-request-changed-options"
             p = s.props()
             # F4 is about a *later* option failing after earlier ones were applied: it needs at least two options
-            if s.cmd() == "set" and isinstance(p.get("options"), dict) and len(p["options"]) >= 2 and \
+            if s.cmd() == "set" and isinstance(p.get("options"), dict) and len(p["options"]) >= 2 and eff and \
                     all(l[0] == "ev" and l[2] == "updated" for l in eff):
                 sig = "set-partially-applied"
             f.append({"sig": sig, "step": s.n, "msg": "%s was refused (errno %s) but changed the daemon" % (s.cmd(), errs[0][4])})
@@ -547,6 +553,15 @@ def c15(sc, V):
                         f.append({"sig": "stats-disagrees", "step": s.n,
                                   "msg": "stats describes the watchers %r, the directory has %r" % (got, lows)})
                 p = s.props()
+                if s.cmd() in ("options", "get") and r[3] == "ok" and body.startswith("options=") and isinstance(p.get("name"), str):
+                    # the request reached the watcher of that name (whatever the letter case) and no other: the numprocesses
+                    # it reports is that watcher's
+                    got = dict(x.split(":", 1) for x in body[len("options="):].split(";") if ":" in x)
+                    mine = [w for w in a.watchers if w["name"].lower() == p["name"].lower()]
+                    if "numprocesses" in got and (len(mine) != 1 or str(mine[0]["np"]) != got["numprocesses"]):
+                        f.append({"sig": "options-of-another-watcher", "step": s.n,
+                                  "msg": "%s %r reports numprocesses=%s, the watcher has %r" %
+                                         (s.cmd(), p["name"], got["numprocesses"], [w["np"] for w in mine])})
                 if s.cmd() == "add" and r[3] == "ok" and isinstance(p.get("name"), str):
                     if p["name"].lower() not in a.names:
                         f.append({"sig": "add-ok-but-absent", "step": s.n, "msg": "add %r answered ok but no such watcher" % p["name"]})
@@ -571,7 +586,8 @@ def c15(sc, V):
                         if r[4] == "3" and any(hit(wb["name"]) for wb in s.before.watchers):
                             f.append({"sig": "case-variant-not-found", "step": s.n,
                                       "msg": "%s %r not found although a watcher matches" % (s.cmd(), p["name"])})
-                if s.cmd() in ("status", "numprocesses", "list", "incr", "decr", "kill", "signal", "rm", "set", "reload") and \
+                if s.cmd() in ("status", "numprocesses", "list", "incr", "decr", "kill", "signal", "rm", "set", "reload",
+                               "options", "get") and \
                         isinstance(p.get("name"), str) and p["name"].lower() in s.before.names and r[4] == "3" and \
                         _has_required(s.cmd(), p):
                     f.append({"sig": "case-variant-not-found", "step": s.n, "msg": "%s %r not found although it exists" % (s.cmd(), p["name"])})
@@ -588,7 +604,17 @@ def _has_required(cmd, p):
         return "signum" not in p
     if cmd in ("incr", "decr"):
         return "nb" not in p or (isinstance(p["nb"], int) and not isinstance(p["nb"], bool))
+    if cmd == "get":
+        # errno 3 is also the answer to a key that is no option name
+        return isinstance(p.get("keys"), list) and all(isinstance(k, str) and k in WATCHER_OPTNAMES for k in p["keys"])
     return True
+
+
+# Watcher.optnames as documented (commands/options.py, watcher.py): the names `get` accepts
+WATCHER_OPTNAMES = ("numprocesses", "warmup_delay", "working_dir", "uid", "gid", "send_hup", "stop_signal", "stop_children",
+                    "shell", "shell_args", "env", "max_retry", "cmd", "args", "respawn", "graceful_timeout", "executable",
+                    "use_sockets", "priority", "copy_env", "singleton", "stdout_stream_conf", "on_demand", "stderr_stream_conf",
+                    "max_age", "max_age_variance", "close_child_stdin", "close_child_stdout", "close_child_stderr")
 
 
 # ------------------------------------------------------------------------------------------------ C18 (confinement)
@@ -600,14 +626,32 @@ def c18(sc, V):
             continue
         p = s.props()
         sigs = [l for l in s.lines if l[0] == "sig"]
-        if not sigs:
-            continue
         name = p.get("name")
         w = None
         if isinstance(name, str):
             for x in s.before.watchers:
                 if x["name"].lower() == name.lower():
                     w = x
+        # "all active workers of the named watcher": a `signal` addressed to the whole watcher and answered ok reaches every
+        # listed worker that is alive — one that is being stopped (its kill is in its grace period) included
+        if (s.cmd() == "signal" and w is not None and isinstance(p, dict) and not any(k in p for k in ("pid", "children", "recursive", "childpid"))
+                and isinstance(p.get("signum"), int) and not isinstance(p.get("signum"), bool) and 1 <= p["signum"] <= 64
+                and any(r[3] == "ok" for r in s.of("rep")) and not (s.n > 0 and V[s.n - 1].kind() == "fault")):
+            cfgw = next((c for c in sc["watchers"] if c["name"] == w["name"]), None)
+            hooked = cfgw is None or any(h in (cfgw.get("hooks") or {}) for h in ("before_signal", "after_signal")) or \
+                any(x.kind() == "req" and x.cmd() in ("set", "add", "rm") for x in V[:s.n])
+            if not hooked:
+                got = set(l[1] for l in sigs)
+                # alive before AND after the step: a worker whose death was already under way (a stop signal it obeys after a
+                # latency that has run out) shows as running in the snapshot before and turns out dead when it is looked at
+                missed = sorted(pp[0] for pp in w["procs"] if alive(s.before.kernel.get(pp[0], ("g", 0))[0]) and
+                                alive(s.snap.kernel.get(pp[0], ("g", 0))[0]) and pp[0] not in got)
+                if missed:
+                    f.append({"sig": "signal-misses-active-worker", "step": s.n,
+                              "msg": "signal %s to the whole watcher %r answered ok, live listed worker(s) %r got nothing (signalled: %r)"
+                                     % (p["signum"], name, missed, sorted(got))})
+        if not sigs:
+            continue
         own = set(pp[0] for pp in w["procs"]) if w else set()
         allowed = s.before.descendants(own)
         for l in sigs:
@@ -660,9 +704,16 @@ def _graceful_at(sc, V, n, wname):
                 g = int(round(o["graceful_timeout"] * 1000))
         if s.cmd() == "set" and isinstance(p.get("name"), str) and p["name"].lower() == wname.lower():
             o = p.get("options")
-            if isinstance(o, dict) and isinstance(o.get("graceful_timeout"), (int, float)) and \
-                    any(l[0] == "ev" and l[2] == "updated" for l in s.lines):
-                g = int(round(float(o["graceful_timeout"]) * 1000))
+            if isinstance(o, dict) and isinstance(o.get("graceful_timeout"), (int, float)):
+                # `set` applies its options one by one, in the order of the request, and stops at the first that raises
+                # (F4); every applied option publishes one `updated` event: graceful_timeout is in force only if the
+                # request got as far as that key
+                n_upd = sum(1 for l in s.lines if l[0] == "ev" and l[2] == "updated")
+                ks = list(o.keys())
+                idx = ks.index("graceful_timeout")
+                need = 1 if "hooks" in ks[:idx] else idx + 1
+                if n_upd >= need:
+                    g = int(round(float(o["graceful_timeout"]) * 1000))
     return g
 
 
@@ -705,8 +756,9 @@ def c03(sc, V):
     owner = {}                # pid -> watcher name
     stop_sent = {}            # pid -> (t, sig, T)
     veto = set(w["name"] for w in sc["watchers"] if "before_signal" in (w.get("hooks") or {}))
-    # … and by the name the workers carry: a watcher that `rm` has taken out of the daemon is still stopping its workers
-    veto |= set(w["name"].replace(" ", "_") for w in sc["watchers"] if "before_signal" in (w.get("hooks") or {}))
+    # a watcher that has been removed (`rm`) is no longer in the snapshot: its workers are then known by the name of
+    # their spawn line (blanks as underscores)
+    veto |= set(n.replace(" ", "_") for n in veto)
     for s in V:
         if s.before.blocked:
             break
@@ -1117,22 +1169,67 @@ def _hook_outcomes(sc):
     return {w["name"]: (w.get("hooks") or {}) for w in sc["watchers"]}
 
 
+def _parse_set_hook(v):
+    """`"harness.simhooks.o_<letters>[,flag]"` as Watcher.set_opt reads it, or None when it is anything else"""
+    if not isinstance(v, str):
+        return None
+    parts = v.split(",")
+    name = parts[0]
+    pre = "harness.simhooks.o_"
+    if not name.startswith(pre) or not name[len(pre):] or any(c not in "tfr" for c in name[len(pre):]):
+        return None
+    ignore = False
+    if len(parts) == 2:
+        t = parts[1].lower().strip()
+        if t in ("yes", "true", "on", "1"):
+            ignore = True
+        elif t in ("no", "false", "off", "0"):
+            ignore = False
+        else:
+            return None
+    return {"out": [{"t": "true", "f": "false", "r": "raise"}[c] for c in name[len(pre):]], "ignore": ignore}
+
+
 def c14(sc, V, counters=None):
     f = []
     hooks = _hook_outcomes(sc)
     calls = {}
+    replaced = set()          # (watcher, hook) a `set … hooks` request has touched: the scripted outcomes of the scenario's
+    #                           configuration no longer say what that hook does (the model / code comparison still does)
     for s in V:
         if s.before.blocked:
             break
         failed_start = {}
+        op = getattr(s, "op", None)
+        if op and op[0] == "req" and isinstance(op[1], dict) and str(op[1].get("command", "")).lower() == "set":
+            pr = op[1].get("properties")
+            if isinstance(pr, dict) and isinstance(pr.get("name"), str) and isinstance(pr.get("options"), dict):
+                tgt = [n for n in hooks if n.lower() == pr["name"].lower()]
+                refused = any(l[0] == "rep" and l[3] == "error" for l in s.lines)
+                for k_, v_ in pr["options"].items():
+                    items = ([(k_.split(".")[-1], v_)] if k_.startswith("hooks.") else
+                             list(v_.items()) if k_ == "hooks" and isinstance(v_, dict) else [])
+                    for n in tgt:
+                        for hn, hv in items:
+                            spec = None if refused else _parse_set_hook(hv)
+                            if spec is None:
+                                replaced.add((n, hn))          # refused part-way or not understood: outcomes unknown
+                            else:
+                                # installed: the scripted outcomes and the flag of the request are what C14 speaks about
+                                # from now on (the call counter of the watcher object goes on)
+                                hooks[n] = dict(hooks[n])
+                                hooks[n][hn] = spec
+                                replaced.discard((n, hn))
         for i, l in enumerate(s.lines):
             if l[0] == "ev" and l[2] in ("hook_success", "hook_failure"):
                 wn = next((n for n in hooks if res_name(n) == l[1]), None)
-                if wn is None or l[4] not in hooks[wn]:
+                if wn is None:
                     continue
-                spec = hooks[wn][l[4]]
                 k = calls.get((wn, l[4]), 0)
                 calls[(wn, l[4])] = k + 1
+                if l[4] not in hooks[wn] or (wn, l[4]) in replaced:
+                    continue
+                spec = hooks[wn][l[4]]
                 outs = spec.get("out", ["true"])
                 o = outs[k % len(outs)]
                 if (o == "raise") != (l[2] == "hook_failure"):
@@ -1359,11 +1456,14 @@ def c01(sc, V):
                         continue
                 except ValueError:
                     continue
-                # "no surplus, nothing to replace": every listed worker alive when the check began, and no spawn failed in it
-                # (a dead worker is replaced; a replacement whose exec fails makes the watcher stop all its workers — exec
-                # failures are outside C01's quantifier)
-                if any(not alive(s.before.kernel.get(q[0], ("g", 0))[0]) for q in wb["procs"]) or \
-                        any(l[0] == "execfail" for l in s.lines):
+                # converged means: every listed worker is alive (a dead one is replaced by this check, and a spawn hook that
+                # says no then stops the whole watcher, young workers included — thorough seed 0 of session 5); spawn hooks
+                # are outside the configurations C01 quantifies over anyway
+                if not all(alive(s.before.kernel.get(p[0], ("g", 0))[0]) for p in wb["procs"]):
+                    continue
+                if any(h in (cfgm.get("hooks") or {}) for h in ("before_spawn", "after_spawn")) or \
+                        any(x.cmd() == "set" and "hooks" in json.dumps(x.op[1].get("properties", {})) for x in V[:s.n] if x.kind() == "req" and isinstance(x.op[1], dict)) or \
+                        any(l[0] == "execfail" for l in s.lines):      # … as are exec failures
                     continue
                 st_times = spawn_times(sc, V[:s.n + 1])
                 for l in s.lines:
